@@ -6,7 +6,6 @@ From Coq Require Import List NArith ZArith Lia Bool Sorted.
 From Mast Require Import Prim Tree Erase Build Spec Canon Level.
 Import ListNotations.
 
-Fixpoint pow_N (b : N) (e : nat) : N := match e with O => 1%N | S e' => (b * pow_N b e')%N end.
 
 Section INV.
 Variables K V : Type.
@@ -55,14 +54,15 @@ Definition hok (bf : N) (l : seg) (h : nat) : Prop := h = 0 \/ (has_layer l h /\
 Definition hrule (bf : N) (l : seg) (h : nat) : Prop :=
   hok bf l h /\ ~ (has_layer l (S h) /\ big bf (S h) (length l)).
 
-Record canon (m : mast) (l : seg) : Prop := {
+Record canon (bf : N) (m : mast) (l : seg) : Prop := {
   cn_root : exists n, root_n (m_root _ _ m) = Some n /\ erase_n n = bnode (m_height _ _ m) l;
   cn_sorted : sorted l;
   cn_size : m_size _ _ m = N.of_nat (length l);
   cn_bf : (2 <= m_bf _ _ m)%N;
   cn_ga : m_grow_after _ _ m = pow_N (m_bf _ _ m) (S (m_height _ _ m));
   cn_sb : m_shrink_below _ _ m = pow_N (m_bf _ _ m) (m_height _ _ m);
-  cn_h : hrule (m_bf _ _ m) l (m_height _ _ m)
+  cn_h : hrule (m_bf _ _ m) l (m_height _ _ m);
+  cn_bfeq : m_bf _ _ m = bf
 }.
 
 (** * basic facts *)
@@ -72,9 +72,9 @@ Proof. intros H. rewrite <- (to_list_n_erase K V), H. apply to_list_bnode. Qed.
 Lemma bnode_inj d l l' : bnode d l = bnode d l' -> l = l'.
 Proof. intros H. rewrite <- (to_list_bnode K V layer d l), H. apply to_list_bnode. Qed.
 
-Lemma root_nil_list m l : canon m l -> m_root _ _ m = LNil -> l = [].
+Lemma root_nil_list bf m l : canon bf m l -> m_root _ _ m = LNil -> l = [].
 Proof.
-  intros C E. destruct (cn_root _ _ C) as (n & Hn & He). rewrite E in Hn. inversion Hn; subst n.
+  intros C E. destruct (cn_root _ _ _ C) as (n & Hn & He). rewrite E in Hn. inversion Hn; subst n.
   apply (bnode_inj (m_height _ _ m)). rewrite <- He. apply erase_fresh.
 Qed.
 
@@ -97,19 +97,19 @@ Qed.
 Lemma cut_lookup_absent a b k : s_all_lt K V cmp a k -> s_all_gt K V cmp b k -> lookup k (a ++ b) = None.
 Proof. apply lookup_absent; assumption. Qed.
 
-Theorem get_ok m l k : canon m l -> oks (get _ _ cmp layer m k) (fun r => r = lookup k l).
+Theorem get_ok bf m l k : canon bf m l -> oks (get _ _ cmp layer m k) (fun r => r = lookup k l).
 Proof.
-  intros C. destruct (cn_root _ _ C) as (n & Hn & He). unfold get.
+  intros C. destruct (cn_root _ _ _ C) as (n & Hn & He). unfold get.
   assert (Hmain : oks (tick ELayer >> get_node _ _ cmp (S (m_height _ _ m)) (m_height _ _ m) (Nat.min (layer k) (m_height _ _ m)) k n)
                       (fun r => r = lookup k l)).
   { apply oks_tick.
-    destruct (sorted_cut K V cmp cmp_eq cmp_antisym cmp_trans k l (cn_sorted _ _ C)) as [a b El Ha Hb|a b v0 El Ha Hb]; subst l.
+    destruct (sorted_cut K V cmp cmp_eq cmp_antisym cmp_trans k l (cn_sorted _ _ _ C)) as [a b El Ha Hb|a b v0 El Ha Hb]; subst l.
     + rewrite lookup_absent by assumption.
       eapply (get_absent K V cmp layer) with (a := a) (b := b); try eassumption; try reflexivity; try exact Ha; try exact Hb; try lia.
     + rewrite lookup_present by assumption.
       eapply (get_present K V cmp layer) with (a := a) (b := b); try eassumption; try reflexivity; try exact Ha; try exact Hb; try lia. }
   destruct (m_root _ _ m) as [|c|h c|h] eqn:Er.
-  - apply oks_ret. rewrite (root_nil_list _ _ C Er). reflexivity.
+  - apply oks_ret. rewrite (root_nil_list _ _ _ C Er). reflexivity.
   - pose proof (load_root _ _ Hn ltac:(discriminate)) as L.
     apply (oks_bind _ _ _ _ L). intros c0 ->. exact Hmain.
   - pose proof (load_root _ _ Hn ltac:(discriminate)) as L.
@@ -213,7 +213,8 @@ Lemma grow_loop_spec : forall fuel root0 h0 m l,
   growing m l -> erase_n root0 = bnode h0 l -> h0 <= m_height _ _ m ->
   max_layer_fuel <= m_height _ _ m + fuel ->
   oks (grow_loop _ _ layer fuel root0 m)
-      (fun m' => growing m' l /\ ~ (has_layer l (S (m_height _ _ m')) /\ big (m_bf _ _ m') (S (m_height _ _ m')) (length l))).
+      (fun m' => growing m' l /\ ~ (has_layer l (S (m_height _ _ m')) /\ big (m_bf _ _ m') (S (m_height _ _ m')) (length l)) /\
+                 m_bf _ _ m' = m_bf _ _ m).
 Proof.
   induction fuel as [|f IH]; intros root0 h0 m l G He Hh Hf.
   - pose proof (hok_height_bound _ _ _ (g_hok _ _ G)). lia.
@@ -227,7 +228,7 @@ Proof.
       * assert (Hhl : has_layer l (S (m_height _ _ m))) by (apply Hcg; reflexivity).
         destruct (g_root _ _ G) as (n & Hr & Hn).
         apply (oks_bind _ _ _ _ (grow_spec m n Hr)). intros m' ->.
-        eapply (IH root0 h0); [|exact He|cbn [m_height]; lia|cbn [m_height]; lia].
+        eapply oks_weaken; [eapply (IH root0 h0); [|exact He|cbn [m_height]; lia|cbn [m_height]; lia]|intros m'' (A & B & Cc); split; [exact A|split; [exact B|exact Cc]]].
         constructor; cbn [m_root m_height m_size m_bf m_grow_after m_shrink_below].
         -- exists (grow_node _ _ layer (m_height _ _ m) n). split; [reflexivity|]. apply grow_node_spec. exact Hn.
         -- exact (g_ne _ _ G).
@@ -236,9 +237,9 @@ Proof.
         -- rewrite (g_ga _ _ G). cbn [pow_N]. lia.
         -- exact (g_ga _ _ G).
         -- right. split; assumption.
-      * apply oks_ret. split; [exact G|]. intros [Hl _]. apply Hcg in Hl. discriminate.
+      * apply oks_ret. split; [exact G|]. split; [|reflexivity]. intros [Hl _]. apply Hcg in Hl. discriminate.
     + apply N.leb_gt in Ega. rewrite (g_ga _ _ G), (g_size _ _ G) in Ega.
-      apply oks_ret. split; [exact G|]. intros [_ Hb]. unfold big in Hb. lia.
+      apply oks_ret. split; [exact G|]. split; [|reflexivity]. intros [_ Hb]. unfold big in Hb. lia.
 Qed.
 
 (** * has_layer depends on the keys only *)
@@ -265,12 +266,12 @@ Proof.
   apply (is_empty_bnode _ _ _ He) in E. contradiction.
 Qed.
 
-Lemma first_node (m : mast) l :
-  canon m l ->
+Lemma first_node bf (m : mast) l :
+  canon bf m l ->
   oks (match m_root _ _ m with LNil => ret (fresh_node K V) | r => load _ _ r end)
       (fun n => erase_n n = bnode (m_height _ _ m) l).
 Proof.
-  intros C. destruct (cn_root _ _ C) as (n & Hn & He).
+  intros C. destruct (cn_root _ _ _ C) as (n & Hn & He).
   destruct (m_root _ _ m) as [|c|h c|h] eqn:Er.
   - apply oks_ret. cbn [root_n] in Hn. inversion Hn; subst. exact He.
   - eapply oks_weaken; [exact (load_root _ _ Hn ltac:(discriminate))|]. intros c0 ->. exact He.
@@ -281,12 +282,12 @@ Qed.
 Lemma app_cons_not_nil (a b : seg) x : a ++ x :: b <> [].
 Proof. destruct a; discriminate. Qed.
 
-Theorem insert_ok m l k v : canon m l -> oks (insert _ _ cmp veq layer m k v) (fun m' => canon m' (upsert k v l)).
+Theorem insert_ok bf m l k v : canon bf m l -> oks (insert _ _ cmp veq layer m k v) (fun m' => canon bf m' (upsert k v l)).
 Proof.
   intros C. unfold insert. apply oks_tick.
-  apply (oks_bind _ _ _ _ (first_node m l C)). intros n He.
-  pose proof (cn_bf _ _ C) as Hbf.
-  destruct (sorted_cut K V cmp cmp_eq cmp_antisym cmp_trans k l (cn_sorted _ _ C)) as [a b El Ha Hb|a b v0 El Ha Hb]; subst l.
+  apply (oks_bind _ _ _ _ (first_node bf m l C)). intros n He.
+  pose proof (cn_bf _ _ _ C) as Hbf.
+  destruct (sorted_cut K V cmp cmp_eq cmp_antisym cmp_trans k l (cn_sorted _ _ _ C)) as [a b El Ha Hb|a b v0 El Ha Hb]; subst l.
   - (* new key *)
     rewrite upsert_absent by assumption.
     eapply oks_bind.
@@ -300,23 +301,24 @@ Proof.
     { constructor; cbn [set_root m_root m_height m_size m_bf m_grow_after m_shrink_below].
       - exists n'. split; [reflexivity|exact Hr].
       - exact Hne.
-      - rewrite (cn_size _ _ C). unfold l'. rewrite !app_length. cbn [length]. f_equal. lia.
+      - rewrite (cn_size _ _ _ C). unfold l'. rewrite !app_length. cbn [length]. f_equal. lia.
       - exact Hbf.
-      - exact (cn_ga _ _ C).
-      - exact (cn_sb _ _ C).
-      - destruct (cn_h _ _ C) as [Hok _]. apply (hok_mono _ (a ++ b)); [lia|apply has_layer_ins| |exact Hok].
+      - exact (cn_ga _ _ _ C).
+      - exact (cn_sb _ _ _ C).
+      - destruct (cn_h _ _ _ C) as [Hok _]. apply (hok_mono _ (a ++ b)); [lia|apply has_layer_ins| |exact Hok].
         unfold l'. rewrite !app_length. cbn [length]. lia. }
     eapply oks_bind.
     { eapply (grow_loop_spec max_layer_fuel n' (m_height _ _ m)); [exact G|exact Hr|cbn; lia|cbn [set_root m_height]; lia]. }
-    intros m2 [G2 Hnext]. apply oks_ret.
+    intros m2 (G2 & Hnext & Hbf2). apply oks_ret. cbn [set_root m_bf] in Hbf2.
     constructor; cbn [set_size m_root m_height m_size m_bf m_grow_after m_shrink_below].
     + destruct (g_root _ _ G2) as (n2 & Hr2 & Hn2). exists n2. rewrite Hr2. split; [reflexivity|exact Hn2].
-    + destruct (ssorted_app_inv K V cmp _ _ (cn_sorted _ _ C)). apply ssorted_mid; assumption.
+    + destruct (ssorted_app_inv K V cmp _ _ (cn_sorted _ _ _ C)). apply ssorted_mid; assumption.
     + rewrite (g_size _ _ G2). destruct l'; [contradiction|cbn [length]; lia].
     + exact (g_bf _ _ G2).
     + exact (g_ga _ _ G2).
     + exact (g_sb _ _ G2).
     + split; [exact (g_hok _ _ G2)|exact Hnext].
+    + rewrite Hbf2. exact (cn_bfeq _ _ _ C).
   - (* existing key *)
     rewrite upsert_present by assumption.
     eapply oks_bind.
@@ -327,14 +329,15 @@ Proof.
       rewrite (root_of_node_nonempty m n' _ _ He' (app_cons_not_nil _ _ _)).
       constructor; cbn [set_root m_root m_height m_size m_bf m_grow_after m_shrink_below].
       * exists n'. split; [reflexivity|exact He'].
-      * destruct (ssorted_app_inv K V cmp _ _ (cn_sorted _ _ C)) as [Sa Sb]. inversion Sb; subst. apply ssorted_mid; assumption.
-      * rewrite (cn_size _ _ C). rewrite !app_length. reflexivity.
+      * destruct (ssorted_app_inv K V cmp _ _ (cn_sorted _ _ _ C)) as [Sa Sb]. inversion Sb; subst. apply ssorted_mid; assumption.
+      * rewrite (cn_size _ _ _ C). rewrite !app_length. reflexivity.
       * exact Hbf.
-      * exact (cn_ga _ _ C).
-      * exact (cn_sb _ _ C).
-      * destruct (cn_h _ _ C) as [Hok Hnx]. split.
+      * exact (cn_ga _ _ _ C).
+      * exact (cn_sb _ _ _ C).
+      * destruct (cn_h _ _ _ C) as [Hok Hnx]. split.
         -- apply (hok_mono _ (a ++ (k, v0) :: b)); [lia|apply has_layer_val|rewrite !app_length; cbn [length]; lia|exact Hok].
         -- intros [H1 H2]. apply Hnx. split; [eapply has_layer_val; exact H1|]. rewrite !app_length in *. exact H2.
+      * exact (cn_bfeq _ _ _ C).
 Qed.
 
 (** * the shrink loop of Delete *)
@@ -384,19 +387,19 @@ Qed.
 
 Lemma shrink_loop_spec : forall fuel (m : mast) l,
   shrinking m l -> m_height _ _ m <= fuel ->
-  oks (shrink_loop _ _ (S fuel) m) (fun m' => shrinking m' l /\ hok (m_bf _ _ m') l (m_height _ _ m')).
+  oks (shrink_loop _ _ (S fuel) m) (fun m' => shrinking m' l /\ hok (m_bf _ _ m') l (m_height _ _ m') /\ m_bf _ _ m' = m_bf _ _ m).
 Proof.
   induction fuel as [|f IH]; intros m l S Hf.
   - cbn [shrink_loop]. replace (Nat.ltb 0 (m_height _ _ m)) with false by (symmetry; apply Nat.ltb_ge; lia).
-    cbn [andb]. apply oks_ret. split; [exact S|left; lia].
+    cbn [andb]. apply oks_ret. split; [exact S|split; [left; lia|reflexivity]].
   - cbn [shrink_loop].
-    destruct (Nat.ltb 0 (m_height _ _ m)) eqn:Eh; cbn [andb]; [|apply oks_ret; split; [exact S|left; apply Nat.ltb_ge in Eh; lia]].
+    destruct (Nat.ltb 0 (m_height _ _ m)) eqn:Eh; cbn [andb]; [|apply oks_ret; split; [exact S|split; [left; apply Nat.ltb_ge in Eh; lia|reflexivity]]].
     apply Nat.ltb_lt in Eh.
     destruct ((m_size _ _ m <=? m_shrink_below _ _ m)%N || root_has_no_keys _ _ m) eqn:Ec.
     + destruct (m_height _ _ m) as [|h'] eqn:Ehh; [lia|].
       apply (oks_bind _ _ _ _ (shrink_spec m l h' S Ehh)). intros m' (n' & Hn' & ->).
-      apply IH; [|cbn [m_height]; lia].
       assert (Hne : l <> []) by (apply (s_ne _ _ S); lia).
+      eapply oks_weaken; [apply IH; [|cbn [m_height]; lia]|intros m'' (A & B & Cc); split; [exact A|split; [exact B|exact Cc]]].
       constructor; cbn [m_root m_height m_size m_bf m_grow_after m_shrink_below].
       * right. split; [exact Hne|]. exists n'. split; [reflexivity|exact Hn'].
       * intros _. exact Hne.
@@ -408,7 +411,7 @@ Proof.
         intros [Hl Hb]. apply orb_true_iff in Ec. destruct Ec as [Ec|Ec].
         -- apply N.leb_le in Ec. rewrite (s_size _ _ S), (s_sb _ _ S), Ehh in Ec. unfold big in Hb. lia.
         -- apply (no_keys_spec m l S) in Ec. rewrite Ehh in Ec. contradiction.
-    + apply oks_ret. split; [exact S|]. right. apply orb_false_iff in Ec. destruct Ec as [Ec1 Ec2]. split.
+    + apply oks_ret. split; [exact S|]. split; [|reflexivity]. right. apply orb_false_iff in Ec. destruct Ec as [Ec1 Ec2]. split.
       * destruct (root_has_no_keys _ _ m) eqn:E; [discriminate|].
         destruct (Exists_dec (fun x : kv => m_height _ _ m <= layer (fst x)) l (fun x => le_dec _ _)) as [Hd|Hd]; [exact Hd|].
         apply (no_keys_spec m l S) in Hd. congruence.
@@ -416,24 +419,24 @@ Proof.
 Qed.
 
 (** * Delete *)
-Theorem delete_ok m l k v : canon m l -> lookup k l = Some v ->
-  oks (delete _ _ cmp veq layer m k v) (fun m' => canon m' (remove k l)).
+Theorem delete_ok bf m l k v : canon bf m l -> lookup k l = Some v ->
+  oks (delete _ _ cmp veq layer m k v) (fun m' => canon bf m' (remove k l)).
 Proof.
   intros C Hlk. unfold delete.
-  pose proof (cn_bf _ _ C) as Hbf.
-  destruct (sorted_cut K V cmp cmp_eq cmp_antisym cmp_trans k l (cn_sorted _ _ C)) as [a b El Ha Hb|a b v0 El Ha Hb]; subst l.
+  pose proof (cn_bf _ _ _ C) as Hbf.
+  destruct (sorted_cut K V cmp cmp_eq cmp_antisym cmp_trans k l (cn_sorted _ _ _ C)) as [a b El Ha Hb|a b v0 El Ha Hb]; subst l.
   { rewrite lookup_absent in Hlk by assumption. discriminate. }
   rewrite lookup_present in Hlk by assumption. inversion Hlk; subst v0. clear Hlk.
   rewrite remove_present by assumption.
-  destruct (cn_root _ _ C) as (n & Hn & He).
+  destruct (cn_root _ _ _ C) as (n & Hn & He).
   assert (Hrn : m_root _ _ m <> LNil).
-  { intros E. apply (root_nil_list _ _ C) in E. exact (app_cons_not_nil _ _ _ E). }
+  { intros E. apply (root_nil_list _ _ _ C) in E. exact (app_cons_not_nil _ _ _ E). }
   assert (Hbody : oks (tick ELayer >>
       (let* n0 := load _ _ (m_root _ _ m) in
        let* n' := del _ _ cmp veq (S (m_height _ _ m)) (m_height _ _ m) (Nat.min (layer k) (m_height _ _ m)) k v n0 in
        tick ECommit >>
        (let m1 := root_of_node _ _ m n' in shrink_loop _ _ max_layer_fuel (set_size _ _ m1 (m_size _ _ m1 - 1)))))
-      (fun m' => canon m' (a ++ b))).
+      (fun m' => canon bf m' (a ++ b))).
   { apply oks_tick. apply (oks_bind _ _ _ _ (load_root _ _ Hn Hrn)). intros n0 ->.
     eapply oks_bind.
     { eapply (del_present K V cmp veq layer) with (a := a) (b := b); try eassumption; try reflexivity; try exact Ha; try exact Hb; try lia. }
@@ -442,7 +445,7 @@ Proof.
     assert (Hh1 : m_height _ _ m1 = m_height _ _ m) by (unfold m1, root_of_node; destruct (is_empty _ _ n'); reflexivity).
     assert (Hbf1 : m_bf _ _ m1 = m_bf _ _ m) by (unfold m1, root_of_node; destruct (is_empty _ _ n'); reflexivity).
     assert (S1 : shrinking m1 (a ++ b)).
-    { destruct (cn_h _ _ C) as [Hok Hnx].
+    { destruct (cn_h _ _ _ C) as [Hok Hnx].
       constructor.
       - unfold m1, root_of_node. destruct (is_empty _ _ n') eqn:E.
         + left. apply (is_empty_bnode _ _ _ Hn') in E. split; [exact E|reflexivity].
@@ -453,26 +456,27 @@ Proof.
         unfold big in Hbig. pose proof (pow_N_pos (m_bf _ _ m) (m_height _ _ m) ltac:(lia)).
         rewrite app_length in Hbig. cbn [length] in Hbig. intros E. apply app_eq_nil in E. destruct E; subst. cbn in Hbig. lia.
       - unfold m1, root_of_node. destruct (is_empty _ _ n'); cbn [set_size set_root m_size];
-          rewrite (cn_size _ _ C), !app_length; cbn [length]; lia.
+          rewrite (cn_size _ _ _ C), !app_length; cbn [length]; lia.
       - rewrite Hbf1. exact Hbf.
-      - unfold m1, root_of_node. destruct (is_empty _ _ n'); cbn [set_size set_root m_grow_after m_height m_bf]; exact (cn_ga _ _ C).
-      - unfold m1, root_of_node. destruct (is_empty _ _ n'); cbn [set_size set_root m_shrink_below m_height m_bf]; exact (cn_sb _ _ C).
+      - unfold m1, root_of_node. destruct (is_empty _ _ n'); cbn [set_size set_root m_grow_after m_height m_bf]; exact (cn_ga _ _ _ C).
+      - unfold m1, root_of_node. destruct (is_empty _ _ n'); cbn [set_size set_root m_shrink_below m_height m_bf]; exact (cn_sb _ _ _ C).
       - rewrite Hh1, Hbf1. intros [H1 H2]. apply Hnx. split; [apply has_layer_del; exact H1|].
         eapply big_mono; [|exact H2]. rewrite !app_length. cbn [length]. lia. }
     eapply oks_weaken.
     { apply (shrink_loop_spec (pred max_layer_fuel) m1 (a ++ b) S1). rewrite Hh1.
-      destruct (cn_h _ _ C) as [Hok _]. pose proof (hok_height_bound _ _ _ Hok). unfold max_layer_fuel in *. cbn. lia. }
-    intros m' [S' Hok']. constructor.
+      destruct (cn_h _ _ _ C) as [Hok _]. pose proof (hok_height_bound _ _ _ Hok). unfold max_layer_fuel in *. cbn. lia. }
+    intros m' (S' & Hok' & Hbf'). constructor.
     - destruct (s_root _ _ S') as [[El Hr]|[Hne (n2 & Hr & He2)]]; rewrite Hr.
       + exists (fresh_node K V). split; [reflexivity|]. rewrite El. apply erase_fresh.
       + exists n2. split; [reflexivity|exact He2].
-    - destruct (ssorted_app_inv K V cmp _ _ (cn_sorted _ _ C)) as [Sa Sb]. inversion Sb; subst.
+    - destruct (ssorted_app_inv K V cmp _ _ (cn_sorted _ _ _ C)) as [Sa Sb]. inversion Sb; subst.
       eapply (ssorted_join K V cmp); eassumption.
     - exact (s_size _ _ S').
     - exact (s_bf _ _ S').
     - exact (s_ga _ _ S').
     - exact (s_sb _ _ S').
-    - split; [exact Hok'|exact (s_next _ _ S')]. }
+    - split; [exact Hok'|exact (s_next _ _ S')].
+    - rewrite Hbf', Hbf1. exact (cn_bfeq _ _ _ C). }
   destruct (m_root _ _ m) as [|c|h c|h] eqn:Er; [contradiction|exact Hbody|exact Hbody|discriminate].
 Qed.
 
@@ -488,15 +492,15 @@ Proof.
     congruence.
 Qed.
 
-Theorem delete_fail m l k v : canon m l -> lookup k l <> Some v -> fails (delete _ _ cmp veq layer m k v).
+Theorem delete_fail bf m l k v : canon bf m l -> lookup k l <> Some v -> fails (delete _ _ cmp veq layer m k v).
 Proof.
   intros C Hlk. unfold delete.
-  destruct (cn_root _ _ C) as (n & Hn & He).
+  destruct (cn_root _ _ _ C) as (n & Hn & He).
   destruct (m_root _ _ m) as [|c|h c|h] eqn:Er; [apply fails_fail| | |discriminate].
   - apply fails_tick. apply (fails_bind_r _ _ _ (load_root _ _ Hn ltac:(discriminate))). intros n0 ->. apply fails_bind_l.
-    apply (del_fails _ _ l); [exact He|exact (cn_sorted _ _ C)|exact Hlk].
+    apply (del_fails _ _ l); [exact He|exact (cn_sorted _ _ _ C)|exact Hlk].
   - apply fails_tick. apply (fails_bind_r _ _ _ (load_root _ _ Hn ltac:(discriminate))). intros n0 ->. apply fails_bind_l.
-    apply (del_fails _ _ l); [exact He|exact (cn_sorted _ _ C)|exact Hlk].
+    apply (del_fails _ _ l); [exact He|exact (cn_sorted _ _ _ C)|exact Hlk].
 Qed.
 
 (** * Iter *)
@@ -567,22 +571,22 @@ Proof.
   - intros b ->. apply oks_ret. reflexivity.
 Qed.
 
-Theorem iter_ok m l : canon m l -> oks (iter _ _ m) (fun r => r = l).
+Theorem iter_ok bf m l : canon bf m l -> oks (iter _ _ m) (fun r => r = l).
 Proof.
-  intros C. destruct (cn_root _ _ C) as (n & Hn & He). unfold iter.
+  intros C. destruct (cn_root _ _ _ C) as (n & Hn & He). unfold iter.
   pose proof (iter_fits _ _ (fits_bnode _ _ _ He)) as Hit. rewrite (canon_list _ _ _ He) in Hit.
   destruct (m_root _ _ m) as [|c|h c|h] eqn:Er.
-  - apply oks_ret. rewrite (root_nil_list _ _ C Er). reflexivity.
+  - apply oks_ret. rewrite (root_nil_list _ _ _ C Er). reflexivity.
   - apply (oks_bind _ _ _ _ (load_root _ _ Hn ltac:(discriminate))). intros c0 ->. exact Hit.
   - apply (oks_bind _ _ _ _ (load_root _ _ Hn ltac:(discriminate))). intros c0 ->. exact Hit.
   - discriminate.
 Qed.
 
 (** * Clone, the empty tree *)
-Theorem clone_ok m l : canon m l -> oks (clone _ _ m) (fun m' => canon m' l).
+Theorem clone_ok bf m l : canon bf m l -> oks (clone _ _ m) (fun m' => canon bf m' l).
 Proof.
-  intros C. destruct (cn_root _ _ C) as (n & Hn & He). unfold clone.
-  assert (Hc : canon (set_root _ _ m (LPtr n) (m_emptied _ _ m)) l).
+  intros C. destruct (cn_root _ _ _ C) as (n & Hn & He). unfold clone.
+  assert (Hc : canon bf (set_root _ _ m (LPtr n) (m_emptied _ _ m)) l).
   { constructor; cbn [set_root m_root m_height m_size m_bf m_grow_after m_shrink_below];
       [exists n; split; [reflexivity|exact He]|apply C..]. }
   destruct (m_root _ _ m) as [|c|h c|h] eqn:Er.
@@ -596,7 +600,7 @@ Lemma hrule_empty bf : hrule bf [] 0.
 Proof. split; [left; reflexivity|]. intros [H _]. inversion H. Qed.
 
 Theorem empty_canon bf emp : (2 <= bf)%N ->
-  canon (Mast (LPtr (fresh_node K V)) 0 0%N bf (1 * bf)%N 1%N emp) [].
+  canon bf (Mast (LPtr (fresh_node K V)) 0 0%N bf (1 * bf)%N 1%N emp) [].
 Proof.
   intros Hbf. constructor; cbn [m_root m_height m_size m_bf m_grow_after m_shrink_below].
   - exists (fresh_node K V). split; [reflexivity|apply erase_fresh].
@@ -606,6 +610,7 @@ Proof.
   - cbn [pow_N]. lia.
   - reflexivity.
   - apply hrule_empty.
+  - reflexivity.
 Qed.
 
 End INV.
